@@ -220,7 +220,7 @@ def gen_spec(rng, audit_types=("CARD_COMPARISON", "ONEAUDIT", "POLLING"), n_cont
             mvrs[str(i)] = {"kind": "votes", "votes": v}
     sn = {"kind": "sha256", "seed": rng.randrange(10 ** 12)} if rng.random() < 0.6 else {"kind": "explicit", "nums": None}
     return {"use_style": use_style, "max_cards": max_cards, "contests": contests, "cards": cards, "phantom_pool": ph_pool,
-            "mvrs": mvrs, "sample_nums": sn, "sn_mode": rng.choice(("list_order", "reverse", "shuffled", "contest_first")), "sn_step": rng.choice((1, 1, 17, 0.5))}
+            "mvrs": mvrs, "sample_nums": sn, "sn_mode": rng.choice(("list_order", "reverse", "shuffled", "contest_first")), "sn_step": rng.choice((1, 1, 17, 0.5)), **({"sn_base": 2 ** 255 + 12345, "sn_step": 2 ** 128} if rng.random() < 0.2 else {})}
 
 
 # ---- reference assorters (written from the definitions; cross-checked by C02 / C14) ---------------------------
@@ -386,7 +386,7 @@ class Sim:
                 nums = [0] * n
                 for pos, i in enumerate(order):
                     # sample numbers 0, 1, 2, ... (what the library's own test uses) or spaced; the smallest is 0
-                    nums[i] = pos * self.spec.get("sn_step", 1)
+                    nums[i] = self.spec.get("sn_base", 0) + pos * self.spec.get("sn_step", 1)
                 sn["nums"] = nums
             for c, v in zip(self.cvr_list, nums):
                 c.sample_num = v
